@@ -36,7 +36,7 @@ class PyCdlibIO(io.RawIOBase):
     Since ISOs are generally only readable, this is only a readable context
     manager.
     """
-    __slots__ = ('_ctxts', '_parts', '_length', '_offset', '_open')
+    __slots__ = ('_ctxts', '_parts', '_length', '_offset', '_open', '_bi_rec')
 
     def __init__(self, ino, logical_block_size, continuation_inos=None):
         # type: (inode.Inode, int, Optional[List[inode.Inode]]) -> None
@@ -50,6 +50,12 @@ class PyCdlibIO(io.RawIOBase):
                 self._ctxts.append(inode.InodeOpenData(cont_ino,
                                                        logical_block_size))
         self._open = True
+        # If this file is being used as an El Torito boot file, and a boot
+        # info table is present, the table is part of the contents of the
+        # file (it is patched into offset 8 when the ISO is written out).
+        self._bi_rec = None  # type: Optional[bytes]
+        if ino.boot_info_table is not None:
+            self._bi_rec = ino.boot_info_table.record()
 
     def __enter__(self):
         # _parts has one entry for each part of the file: the real file
@@ -85,6 +91,30 @@ class PyCdlibIO(io.RawIOBase):
         # This should never happen.
         raise pycdlibexception.PyCdlibInternalError('Offset is beyond the end of the file')
 
+    def _overlay_boot_info_table(self, offset, data):
+        # type: (int, bytes) -> bytes
+        """
+        An internal method to overlay the El Torito Boot Info Table (if this
+        file carries one) over the part of it that is covered by data read
+        from the backing file.
+
+        Parameters:
+         offset - The logical offset into the file that the data was read from.
+         data - The data that was read from the backing file.
+        Returns:
+         The data with the Boot Info Table patched in.
+        """
+        if self._bi_rec is None:
+            return data
+
+        # The Boot Info Table lives at offset 8 of the file.
+        start = max(offset, 8)
+        end = min(offset + len(data), 8 + len(self._bi_rec))
+        if start >= end:
+            return data
+
+        return data[:start - offset] + self._bi_rec[start - 8:end - 8] + data[end - offset:]
+
     def _read_parts(self, readsize):
         # type: (int) -> bytes
         """
@@ -109,7 +139,7 @@ class PyCdlibIO(io.RawIOBase):
             offset += len(data)
             readsize -= len(data)
 
-        return b''.join(datalist)
+        return self._overlay_boot_info_table(self._offset, b''.join(datalist))
 
     def read(self, size=None):
         # type: (Optional[int]) -> bytes
